@@ -179,7 +179,8 @@ uint64_t ext_c(uint64_t a, uint64_t k, uint64_t *x) {
   if (e->retkind == 11) return 0;
   if (e->retkind == 9) { float f = (float)(acc % 97) / 4.0f; uint32_t b; memcpy(&b, &f, 4); x[1] = 0x5e5e5e5e00000000ULL | b; return 0x0a0a0a0a0a0a0a0aULL; }
   if (e->retkind == 10) { double d = (double)(acc % 97) / 4.0; memcpy(&x[1], &d, 8); return 0x0a0a0a0a0a0a0a0aULL; }
-  /* integer result: the declared width carries the value, the rest of rax is noise above 32 bits */
+  /* integer result: the declared width carries the value; for types up to 32 bits the upper half of rax is noise */
+  if (e->retkind >= 7) return acc % 61;
   return (acc % 61) | 0x5a5a5a5a00000000ULL;
 }
 
